@@ -243,3 +243,7 @@ fn c03_update_wire_c() {
     kani::cover!(UpdateMessageFlags::CHANGES.bits() == 8, "flag layout as documented");
 }
 
+
+pub(in crate::server) fn change_components_len(updates: &Updates, i: usize) -> usize {
+    updates.changes[i].components_len
+}
